@@ -524,10 +524,50 @@ def stage_pinned(ctx, exe, known):
                           {"stage": "pinned", "ops": u.ops, "real": u.real, "model": u.model}, no_input=True)
 
 
+def replay_only(ctx, exe, known):
+    """bin/check C09 --replay <file>: re-runs exactly the stored failing input on the current tree (probe ops through the real
+    library and the model; trace ops through the sanitizer build of the trace harness)."""
+    import json
+    rep = json.load(open(ctx.replay)).get("replay", {})
+    ctx.cov["rule"] = "replay of " + os.path.basename(ctx.replay)
+    if rep.get("trace_ops"):
+        tr = cr.run_trace(common.build_harness("crtrace", ["cr/trace.c"], "san"), rep["trace_ops"], rep.get("env") or {}, timeout=300)
+        ctx.count("evaluations")
+        d = cr.diff_model(tr) if tr.rc == 0 and tr.engine.startswith("cr") else None
+        if tr.rc != 0 or d:
+            ctx.violation("C09 replay still fails: rc=%s %s %s" % (tr.rc, tr.err[-600:], d), rep)
+        ctx.sample({"trace_ops": rep["trace_ops"][:4], "rc": tr.rc, "last": tr.lines[-2:]})
+        return
+    ops = rep.get("ops") or []
+    cfg = {}
+    for t in (ops[0].split()[1:] if ops else []):
+        k, _, v = t.partition("=")
+        cfg[k] = v if k.startswith("E.") else int(v)
+    u = cl.Unit(ops, {"cfg": cfg, "kinds": {}})
+    fill_qfields([u], exe)
+    cl.run_real(exe, [u], batch=1, timeout=60)
+    cl.run_model([u])
+    ctx.count("evaluations")
+    ctx.sample({"ops": ops[:6], "real": u.real[:6], "model": u.model[:6], "rc": u.rc})
+    if u.rc != 0:
+        classify_dead(ctx, u, known, "replay")
+        return
+    d, bad = cl.diff_unit(u), oracle(u)
+    st = sticky_oracle(u) if "itype" in cfg and "otype" in cfg else None
+    if bad or st:
+        ctx.violation("C09 replay still fails on the real code: %s" % ((bad or [st])[0][1],), rep)
+    elif d:
+        ctx.violation("C09 replay: correspondence still broken: op %s real %s model %s" % (d[1][:200], d[2][:200], d[3][:200]), rep, no_input=True)
+
+
 def run(ctx):
     broken = common.proof_stage(ctx, ["SoxrModel.Properties.C09"], "C09", exes=("soxr_config", "soxrmodel"), gens=("Config",))
     known = {f["id"]: f for f in common.known_active(PID)}
     exe = common.build_harness("config_probe", ["config/probe.c"], "dbg")
+    if getattr(ctx, "replay", None):
+        replay_only(ctx, exe, known)
+        cr.report_broken(ctx, broken, "replay only")
+        return
     stage_constructors(ctx, exe)
     units = stage_create(ctx, exe, 5000 if ctx.quick else 60000, known)
     stage_api(ctx, exe, 1500 if ctx.quick else 30000, known)
